@@ -37,7 +37,7 @@ def m_vec_len(ex, p, call, k):
 def m_active_inner(ex, p, call, k):
     cell = ('H', 'active_inner', 'ActivePeersInner')
     if cell not in p.mem:
-        p.mem[cell] = Sym('active_inner', 'ActivePeersInner').with_ov(('f', 0), Sym('conns', 'HashMap<PeerId, connection::Connection>'))
+        p.mem[cell] = Sym('active_inner', 'ActivePeersInner').with_ov(('f', struct_fields(CM, 'ActivePeersInner').by_type(r'^HashMap<PeerId,Connection>$')), Sym('conns', 'HashMap<PeerId, connection::Connection>'))
     k(p, Ptr(cell, (), False, 'ActivePeersInner'))
 
 
